@@ -5,6 +5,7 @@ import Rmk.Proofs.NodeIter
 import Rmk.Proofs.DiffHistory
 import Rmk.Proofs.ItersLaws
 import Rmk.Proofs.ReprBasics
+import Rmk.Proofs.RootInjective
 namespace Rmk.C15
 open Rmk
 
@@ -94,6 +95,14 @@ theorem root_eq_content (H : Hash) (hH : Injective2 H) (p : List Bool) (a b x y 
     (hr : a.root H = b.root H) (ha : getPath a p = some x) (hb : getPath b p = some y) :
     x.root H = y.root H :=
   root_getPath_of_root_eq H hH p a b x y hr ha hb
+
+/-- Two valid values of a type have equal hash-tree-roots exactly when their contents are equal —
+    under collision-freeness of the pair hash (the only hypothesis on `H`); so `==` (root equality)
+    is content equality, and equal values have equal roots, hence equal hashes. -/
+theorem eq_iff_content (H : Hash) (hH : Injective2 H) (t : Ty) (hwf : t.wf = true)
+    (hlim : ReprBasics.limitsOk t = true) (v w : Val) (hv : WT t v = true) (hw : WT t w = true) :
+    Spec.htr H t v = Spec.htr H t w ↔ v = w :=
+  RootInjective.eq_iff_content H hH t hwf hlim v w hv hw
 
 /-! Non-vacuity -/
 example : Impl.nodeIter (.pair (.pair (.leaf [1]) (.leaf [2])) (.pair (.leaf [3]) (.leaf [4]))) 2 3 =
